@@ -8,12 +8,19 @@ import SaModel.Lemmas.C03Faithful
 import SaModel.Lemmas.Utf8
 import SaModel.Lemmas.C03PXNew
 import SaModel.Lemmas.C03Final
+import SaModel.Lemmas.C10TakePush
+import SaModel.Props.C01
 /-
 C03 — every produced array is a well-formed Arrow array of the declared field.
 
-Target (full strength): toMarrow ext fields rows = ok arrs → ∀ j, WF fields[j] arrs[j] ∧ all lengths = rows.length,
-as a corollary of the refinement invariant (WFB is preserved by every operation, WFB b → WF f (finish b)).
-Proved so far: the bitmap and offset facts the invariant rests on.
+  C03_wf                 toMarrow ext fields rows = ok arrs → one array per field, each `Spec.WF` for its field and of
+                         `rows.length` rows (explicit assumptions on schema / rows / Ext: see the section header there)
+  toMarrow_decode_state  the arrays decode to exactly the columns the final builder state holds (every family)
+  toMarrow_decode_partial … which are the documented rows `interpRow` of the records (coverage of R2/R3)
+built from the physical layer proved in Lemmas/{Bits,Utf8,FloatBounds,C03*}.lean — `finish_decodeP`/`finish_decode` (the
+finished array means what the state holds), `finish_wf` (it is well formed), the push invariants `push_PX` (offsets,
+UTF-8, view descriptors; no hypotheses) and `push_LR` (value ranges) — and the operational refinement of Props/C01.lean
+(`runRows_rows`, `runRows_interp`) and Lemmas/C10TakePush.lean (`push_takeRest`).  Findings are witness theorems.
 -/
 namespace SaModel.Props.C03
 open SaModel SaModel.Build SaModel.Spec
@@ -293,20 +300,11 @@ theorem toMarrow_split (ext : Ext) (fields : List Field) (rows : List SVal) (arr
         cases h
         exact ⟨rest, rfl⟩
 
-/-- **C03 (partial: modulo the refinement interface).**  Every array `to_marrow` returns is a well-formed array of
-its field, there is one array per field, and all arrays have the same number of rows.
-
-What is proved here: the whole physical layer (`finish_wf`, `newRoot_builtFor`).  What is taken as hypotheses about
-the state `root` the builder is in after all rows have been pushed — each to be discharged by one `exact` once the
-operational refinement (agent-refine: `push b x = ok b' → WFB b → WFB b' ∧ …`) is merged:
-  * `hwfb`   the state invariant `WFB root`                                   (Build/Inv.lean, push-preserved)
-  * `hshape` `BuiltFor (struct fields) false root`: pushes do not change a builder's shape
-             (true of the fresh root by `newRoot_builtFor`)
-  * `hsound` `Sound root`: no `FixedSizeBinary(0)` with rows (known finding); every dictionary key designates a
-             value of the finished dictionary
-  * `hwfx`   `WFX root`: stored values within their physical range, offsets ≤ i32/i64 max (`increment_last`
-             checks), pushed strings valid UTF-8 (Rust `&str`) -/
-theorem C03_wf_root_partial (ext : Ext) (fields : List Field) (rows : List SVal) (arrs : List Arr)
+/-- **C03 from facts about the final builder state** (lemma; the assembled theorem is `C03_wf` below): given the
+state invariant `WFB root`, the shape relation `BuiltFor (struct fields) false root`, `Sound root` and `WFX root`,
+every array `to_marrow` returns is a well-formed array of its field, there is one array per field, and all arrays have
+the same number of rows. -/
+theorem C03_wf_of_root (ext : Ext) (fields : List Field) (rows : List SVal) (arrs : List Arr)
     (hwfb : ∀ root, runRows ext fields rows = .ok root → WFB root)
     (hshape : ∀ root, runRows ext fields rows = .ok root →
       Lemmas.C03.BuiltFor (.struct (Fields.ofList fields)) false root)
@@ -351,8 +349,8 @@ theorem C03_wf_root_partial (ext : Ext) (fields : List Field) (rows : List SVal)
         exact ⟨this.2.2, this.2.1⟩
   | _ => simp [buildArrays, panic] at hba
 
-/-- shape preservation reduced to `push_takeRest` (agent-refine, Lemmas/C10TakePush.lean): `BuiltFor` only depends on
-`takeRest`, so `hpush` is discharged by `Build.push_takeRest ext` -/
+/-- shape preservation reduced to `push_takeRest` (Lemmas/C10TakePush.lean): `BuiltFor` only depends on `takeRest`;
+`hpush` is `Build.push_takeRest ext` -/
 theorem runRows_builtFor (ext : Ext) (fields : List Field) (rows : List SVal) (root : B)
     (hpush : ∀ (x : SVal) (b b' : B), push ext b x = .ok b' → takeRest b' = takeRest b)
     (hm : ∀ f ∈ fields, Lemmas.C03.Map2F f) (h : runRows ext fields rows = .ok root) :
@@ -391,40 +389,6 @@ theorem root_facts (ext : Ext) (fields : List Field) (rows : List SVal) (root : 
   have hf := Lemmas.C03.Faithful_of_strict root hstrict hshape
   exact ⟨hb, hf, Lemmas.C03.Faithful_Sound root hw hf, runRows_PX ext fields rows root hrun⟩
 
-/-- **C03 (partial), with the numeric-range / Utf8View part of the state left as a hypothesis (`hrest`).**  For fields whose Map types have exactly two entry
-children (`Map2F`), without `FixedSizeBinary(0)` and with integer dictionary keys (`SchemaOKF`): every array
-`to_marrow` returns is a well-formed array of its field (`Spec.WF`), there is one per field, and all have the same
-number of rows.
-
-Proved here: the whole physical layer, shape preservation modulo `push_takeRest`, offsets ≤ i32/i64 max and UTF-8 of
-Utf8/LargeUtf8 columns (`runRows_PX`, unconditional).  Interface hypotheses, each discharged by one `exact` after the
-merge with agent-refine:
-  * `hpush   := Build.push_takeRest ext`                       (Lemmas/C10TakePush.lean)
-  * `hwfb`    the refinement theorem (`WFB` is preserved by `push`, holds of the fresh root)
-  * `hstrict` the strict dictionary clause of that `WFB` (`StrictDict`: a recursion over `WFB`)
-and what stays assumed about the final state:
-  * `hrest`   `WFXrest root`: leaf values within the physical range of their type (integers: `tryInto`; float bit
-              patterns < 2^16/2^32/2^64: a property of `Basic/Float.lean` and of well-formed `SVal` floats; temporal
-              values parsed by `Ext`: within i32/i64), and Utf8View slots valid UTF-8 (needs buffers < 4 GiB). -/
-theorem C03_wf_rest_partial (ext : Ext) (fields : List Field) (rows : List SVal) (arrs : List Arr)
-    (hmap : ∀ f ∈ fields, Lemmas.C03.Map2F f) (hschema : ∀ f ∈ fields, Lemmas.C03.SchemaOKF f)
-    (hpush : ∀ (x : SVal) (b b' : B), push ext b x = .ok b' → takeRest b' = takeRest b)
-    (hwfb : ∀ root, runRows ext fields rows = .ok root → WFB root)
-    (hstrict : ∀ root, runRows ext fields rows = .ok root → Lemmas.C03.StrictDict root)
-    (hrest : ∀ root, runRows ext fields rows = .ok root → Lemmas.C03.WFXrest root)
-    (h : toMarrow ext fields rows = .ok arrs) :
-    arrs.length = fields.length ∧
-    ∃ n : Nat, ∀ (j : Nat) (f : Field) (a : Arr), fields[j]? = some f → arrs[j]? = some a →
-      WF f a = true ∧ (decodeAll a).length = n := by
-  refine C03_wf_root_partial ext fields rows arrs hwfb ?_ ?_ ?_ h
-  · intro root hr
-    exact (root_facts ext fields rows root hmap hschema hpush (hwfb root hr) (hstrict root hr) hr).1
-  · intro root hr
-    exact (root_facts ext fields rows root hmap hschema hpush (hwfb root hr) (hstrict root hr) hr).2.2.1
-  · intro root hr
-    exact Lemmas.C03.WFX_of_PX root
-      (root_facts ext fields rows root hmap hschema hpush (hwfb root hr) (hstrict root hr) hr).2.2.2 (hrest root hr)
-
 /-- leaf values stay within the physical range of their type (explicit assumptions: `ExtOK`, `SValOK`; `FloatOK` is
 proved: `floatOK`) -/
 theorem push_LR (ext : Ext) (he : Lemmas.C03.ExtOK ext) (hf : Lemmas.C03.FloatOK) (x : SVal) (b b' : B)
@@ -457,40 +421,6 @@ theorem decodeView_extern (buf data : Bytes) (hlen : 12 < data.length) (hsmall :
     decodeView [buf ++ data] (packExtern data 0 buf.length) = .ok data :=
   Lemmas.C03.decodeView_extern buf data hlen hsmall
 
-/-- **C03 (partial), in the form closest to the final statement.**  For
-  * fields whose Map types have exactly two entry children (`Map2F`), without `FixedSizeBinary(0)` and with integer
-    dictionary keys (`SchemaOKF`) — each exclusion is a recorded finding with a witness in this file,
-  * rows that are well-formed serde values (`SValOK`: an `iN`/`uN`/`f32`/`f64` call carries a value of that width),
-  * `Ext` results that fit in 64 bits (`ExtOK`: what chrono parsing returns; dates after scaling to milliseconds),
-  * bytes-view buffers below 4 GiB in the final state (`ViewSmall`; descriptors hold 32-bit lengths/offsets),
-every array `to_marrow` returns is a well-formed array of its field (`Spec.WF`), there is one per field, and all have
-the same number of rows.
-
-Proved here, without further assumptions: the physical layer (`finish_wf`, `finish_decodeP`), shape preservation
-modulo `push_takeRest`, and the push invariants `PX` (offsets / UTF-8 / view descriptors) and `LR` (value ranges).
-Interface hypotheses, each discharged by one `exact` after the merge with agent-refine:
-  * `hpush   := Build.push_takeRest ext`                       (Lemmas/C10TakePush.lean)
-  * `hwfb`    the refinement theorem (`WFB` preserved by `push`, holds of the fresh root)
-  * `hstrict` the strict dictionary clause of that `WFB` (`StrictDict`: a recursion over `WFB`) -/
-theorem C03_wf_partial (ext : Ext) (fields : List Field) (rows : List SVal) (arrs : List Arr)
-    (hmap : ∀ f ∈ fields, Lemmas.C03.Map2F f) (hschema : ∀ f ∈ fields, Lemmas.C03.SchemaOKF f)
-    (hext : Lemmas.C03.ExtOK ext) (hrows : ∀ x ∈ rows, Lemmas.C03.SValOK x)
-    (hpush : ∀ (x : SVal) (b b' : B), push ext b x = .ok b' → takeRest b' = takeRest b)
-    (hwfb : ∀ root, runRows ext fields rows = .ok root → WFB root)
-    (hstrict : ∀ root, runRows ext fields rows = .ok root → Lemmas.C03.StrictDict root)
-    (hsmall : ∀ root, runRows ext fields rows = .ok root → Lemmas.C03.ViewSmall root)
-    (h : toMarrow ext fields rows = .ok arrs) :
-    arrs.length = fields.length ∧
-    ∃ n : Nat, ∀ (j : Nat) (f : Field) (a : Arr), fields[j]? = some f → arrs[j]? = some a →
-      WF f a = true ∧ (decodeAll a).length = n := by
-  refine C03_wf_root_partial ext fields rows arrs hwfb ?_ ?_ ?_ h
-  · intro root hr
-    exact (root_facts ext fields rows root hmap hschema hpush (hwfb root hr) (hstrict root hr) hr).1
-  · intro root hr
-    exact (root_facts ext fields rows root hmap hschema hpush (hwfb root hr) (hstrict root hr) hr).2.2.1
-  · intro root hr
-    exact Lemmas.C03.runRows_WFX ext hext fields rows root hrows hr (hsmall root hr)
-
 theorem ArrFields_toList_decode : ∀ (x : ArrFields),
     x.toList.map (fun ma => decodeAll ma.2) = (decodeFields x).map (·.2)
   | .nil => rfl
@@ -498,7 +428,7 @@ theorem ArrFields_toList_decode : ∀ (x : ArrFields),
 
 /-- the physical half of C01 for `to_marrow`: the returned arrays decode to exactly the columns the final builder
 state holds (`decRoot`).  Same interface hypotheses; `Faithful` instead of `Sound` (no dummy dictionary keys). -/
-theorem toMarrow_decode_partial (ext : Ext) (fields : List Field) (rows : List SVal) (arrs : List Arr)
+theorem toMarrow_decode_of_root (ext : Ext) (fields : List Field) (rows : List SVal) (arrs : List Arr)
     (hwfb : ∀ root, runRows ext fields rows = .ok root → WFB root)
     (hfaith : ∀ root, runRows ext fields rows = .ok root → Lemmas.C03.Faithful root)
     (h : toMarrow ext fields rows = .ok arrs) :
@@ -525,22 +455,201 @@ theorem toMarrow_decode_partial (ext : Ext) (fields : List Field) (rows : List S
       rfl
   | _ => simp [buildArrays, panic] at hba
 
-/-- the same with `Faithful` derived from the interface hypotheses (see `C03_wf_partial`) -/
-theorem toMarrow_decode_partial' (ext : Ext) (fields : List Field) (rows : List SVal) (arrs : List Arr)
+/-! ### the assembled theorems (refinement interface discharged)
+
+With agent-refine's theorems merged (`Build.push_takeRest`, `Props.C01.runRows_rows`, `Props.C01.runRows_interp`,
+`WFB_StrictDict`) nothing of the interface remains.  What stays are explicit assumptions on the schema, the rows and
+`Ext`, each justified in notes/C03.md:
+
+  schema   `Map2F` (Map entries have exactly two children), `SchemaOKF` (no `FixedSizeBinary(0)`; dictionary keys of an
+           integer type) — exclusions of recorded findings, each with a witness theorem in this file;
+           `Safe root0` (Build/Inv.lean: no dictionary with non-nullable keys below a nullable struct / fixed-size
+           list; a property of the fresh root, i.e. of the schema — `Props.C01.dict_placeholder_unstable`)
+  rows     `rawOK` (raw key/value call streams alternate; vacuous without `mapRaw`), `SValOK` (an iN/uN/f32/f64 call
+           carries a value of that width)
+  Ext      `ExtOK` (what the external chrono parsers return fits the column's storage)
+  size     `ViewSmall` (bytes-view buffers below 4 GiB in the final state) -/
+
+/-- **C03.**  Every array `to_marrow` returns is a well-formed array of its field (`Spec.WF`: data type equal to the
+field's including child names / nullability / metadata / parameters; bitmap present iff nullable with exactly ⌈len/8⌉
+bytes and clear padding; offsets start at 0, never decrease, end at the child length and stay within i32/i64; fixed-size
+child lengths; type ids, dense offsets and dictionary keys in range; string data valid UTF-8; values within their
+physical range), there is exactly one array per field, and every array has `rows.length` rows. -/
+theorem C03_wf (ext : Ext) (fields : List Field) (rows : List SVal) (arrs : List Arr)
     (hmap : ∀ f ∈ fields, Lemmas.C03.Map2F f) (hschema : ∀ f ∈ fields, Lemmas.C03.SchemaOKF f)
-    (hpush : ∀ (x : SVal) (b b' : B), push ext b x = .ok b' → takeRest b' = takeRest b)
-    (hwfb : ∀ root, runRows ext fields rows = .ok root → WFB root)
-    (hstrict : ∀ root, runRows ext fields rows = .ok root → Lemmas.C03.StrictDict root)
+    (hsafe : ∀ root0, newRoot fields = .ok root0 → Safe root0)
+    (hext : Lemmas.C03.ExtOK ext)
+    (hraw : ∀ x ∈ rows, Build.rawOK x = true) (hrows : ∀ x ∈ rows, Lemmas.C03.SValOK x)
+    (hsmall : ∀ root, runRows ext fields rows = .ok root → Lemmas.C03.ViewSmall root)
     (h : toMarrow ext fields rows = .ok arrs) :
-    ∃ root, runRows ext fields rows = .ok root ∧ arrs.map decodeAll = (decRoot root).map (·.map .ok) :=
-  toMarrow_decode_partial ext fields rows arrs hwfb
-    (fun root hr => (root_facts ext fields rows root hmap hschema hpush (hwfb root hr) (hstrict root hr) hr).2.1) h
+    arrs.length = fields.length ∧
+    ∀ (j : Nat) (f : Field) (a : Arr), fields[j]? = some f → arrs[j]? = some a →
+      WF f a = true ∧ (decodeAll a).length = rows.length := by
+  obtain ⟨root, hrun, rest, hba⟩ := toMarrow_split ext fields rows arrs h
+  -- the fresh root
+  have h0 : ∃ root0, newRoot fields = .ok root0 := by
+    simp only [runRows] at hrun
+    cases hr : newRoot fields with
+    | error e => rw [hr] at hrun; cases hrun
+    | ok r0 => exact ⟨r0, rfl⟩
+  obtain ⟨root0, h0⟩ := h0
+  obtain ⟨hw, hlen, _, hcols⟩ := Props.C01.runRows_rows ext fields rows root0 root h0 (hsafe root0 h0) hraw hrun
+  have hfacts := root_facts ext fields rows root hmap hschema (Build.push_takeRest ext) hw
+    (Lemmas.C03.WFB_StrictDict root hw) hrun
+  have hx := Lemmas.C03.runRows_WFX ext hext fields rows root hrows hrun (hsmall root hrun)
+  cases root with
+  | struct p len v fs cached next seen =>
+    simp only [buildArrays, bind, Except.bind] at hba
+    cases hf : finishFields ext fs with
+    | error e => rw [hf] at hba; cases hba
+    | ok afs =>
+      rw [hf] at hba
+      simp only [pure, Except.pure, Except.ok.injEq, Prod.mk.injEq] at hba
+      obtain ⟨rfl, _⟩ := hba
+      have hb := hfacts.1
+      simp only [Lemmas.C03.BuiltFor] at hb
+      obtain ⟨fields', hfe, _, hbl⟩ := hb
+      simp only [DataType.struct.injEq] at hfe
+      subst hfe
+      have hwl := (Lemmas.C03.WFB_struct hw).2
+      have hwf := Lemmas.C03.finishFields_wf ext fs _ len afs hbl hwl
+        (Lemmas.C03.Sound_struct hfacts.2.2.1) (Lemmas.C03.WFX_struct hx) hf
+      obtain ⟨hl, hget⟩ := Lemmas.C03.wfFields_get _ afs len hwf
+      rw [Fields.toList_ofList] at hl
+      refine ⟨by simp [hl], ?_⟩
+      intro j f a hfj haj
+      rw [List.getElem?_map] at haj
+      cases hma : afs.toList[j]? with
+      | none => rw [hma] at haj; cases haj
+      | some ma =>
+        rw [hma] at haj
+        simp only [Option.map_some, Option.some.injEq] at haj
+        subst haj
+        have := hget j f ma (by rw [Fields.toList_ofList]; exact hfj) hma
+        refine ⟨this.2.2, ?_⟩
+        rw [this.2.1]
+        -- the root's row count is the number of rows pushed
+        have hv : (dec (B.struct p len v fs cached next seen)).length = len := by
+          simp only [dec]
+          exact Lemmas.C03.maskNull_length v len _ (Lemmas.C03.WFB_struct hw).1 (by simp)
+        omega
+  | _ => simp [buildArrays, panic] at hba
+
+/-- **the physical half of C01 for `to_marrow`, every builder family.**  The returned arrays decode to exactly the
+columns the final builder state holds (`decRoot root`, `rows.length` slots each). -/
+theorem toMarrow_decode_state (ext : Ext) (fields : List Field) (rows : List SVal) (arrs : List Arr)
+    (hmap : ∀ f ∈ fields, Lemmas.C03.Map2F f) (hschema : ∀ f ∈ fields, Lemmas.C03.SchemaOKF f)
+    (hsafe : ∀ root0, newRoot fields = .ok root0 → Safe root0)
+    (hraw : ∀ x ∈ rows, Build.rawOK x = true)
+    (h : toMarrow ext fields rows = .ok arrs) :
+    ∃ root, runRows ext fields rows = .ok root ∧ arrs.map decodeAll = (decRoot root).map (·.map .ok) ∧
+      ∀ col ∈ decRoot root, col.length = rows.length := by
+  have hroot : ∀ root, runRows ext fields rows = .ok root → WFB root ∧ ∀ col ∈ decRoot root, col.length = rows.length := by
+    intro root hrun
+    have h0 : ∃ root0, newRoot fields = .ok root0 := by
+      simp only [runRows] at hrun
+      cases hr : newRoot fields with
+      | error e => rw [hr] at hrun; cases hrun
+      | ok r0 => exact ⟨r0, rfl⟩
+    obtain ⟨root0, h0⟩ := h0
+    obtain ⟨hw, _, _, hc⟩ := Props.C01.runRows_rows ext fields rows root0 root h0 (hsafe root0 h0) hraw hrun
+    exact ⟨hw, hc⟩
+  obtain ⟨root, hrun, hd⟩ := toMarrow_decode_of_root ext fields rows arrs (fun r hr => (hroot r hr).1)
+    (fun r hr => (root_facts ext fields rows r hmap hschema (Build.push_takeRest ext) (hroot r hr).1
+      (Lemmas.C03.WFB_StrictDict r (hroot r hr).1) hr).2.1) h
+  exact ⟨root, hrun, hd, (hroot root hrun).2⟩
+
+theorem All2_get {α β} {R : α → β → Prop} : ∀ {l1 : List α} {l2 : List β}, Build.All2 R l1 l2 →
+    l1.length = l2.length ∧ ∀ (i : Nat) (h1 : i < l1.length) (h2 : i < l2.length), R l1[i] l2[i]
+  | [], [], .nil => ⟨rfl, fun i h1 _ => absurd h1 (by simp)⟩
+  | _ :: _, _ :: _, .cons hr ht => by
+    obtain ⟨hl, hg⟩ := All2_get ht
+    refine ⟨by simp [hl], ?_⟩
+    intro i h1 h2
+    cases i with
+    | zero => exact hr
+    | succ i => exact hg i (by simpa using h1) (by simpa using h2)
+
+/-- **C01 for `to_marrow`, physical and logical halves composed.**  The returned arrays decode (Arrow reading rules,
+slot by slot, through the packed bitmaps) to columns `cols` of `rows.length` slots each, and the documented value
+(`Spec.interpRow`: records matched by field name, numbers by value …) of the `i`-th input record is exactly the struct
+whose `j`-th field is slot `i` of column `j`.  Coverage is that of R2/R3 (`coveredF`: every builder family except view
+types and dictionaries; `noRaw`: values without raw key/value call streams).
+PARTIAL only in that coverage: the physical half (`toMarrow_decode_state`) holds for every family; what is missing for
+view types and dictionaries is R2 (`Props.C01.push_interp`: the appended row is `interpDT` of the value). -/
+theorem toMarrow_decode_partial (ext : Ext) (fields : List Field) (rows : List SVal) (arrs : List Arr)
+    (hmap : ∀ f ∈ fields, Lemmas.C03.Map2F f) (hschema : ∀ f ∈ fields, Lemmas.C03.SchemaOKF f)
+    (hcov : fields.all Build.coveredF = true)
+    (hsafe : ∀ root0, newRoot fields = .ok root0 → Safe root0)
+    (hraw : ∀ x ∈ rows, Build.noRaw x = true)
+    (h : toMarrow ext fields rows = .ok arrs) :
+    ∃ cols : List (String × List LVal),
+      arrs.map decodeAll = cols.map (fun c => c.2.map .ok) ∧
+      cols.map (·.1) = fields.map (·.name) ∧
+      (∀ c ∈ cols, c.2.length = rows.length) ∧
+      ∀ (i : Nat) (hi : i < rows.length),
+        interpRow ext fields rows[i] = .ok (.struct (LFields.ofList (cols.map fun c => (c.1, c.2.getD i .null)))) := by
+  obtain ⟨root, hrun, rest, hba⟩ := toMarrow_split ext fields rows arrs h
+  have h0 : ∃ root0, newRoot fields = .ok root0 := by
+    simp only [runRows] at hrun
+    cases hr : newRoot fields with
+    | error e => rw [hr] at hrun; cases hrun
+    | ok r0 => exact ⟨r0, rfl⟩
+  obtain ⟨root0, h0⟩ := h0
+  have hs0 := hsafe root0 h0
+  obtain ⟨hw, _, _, _⟩ := Props.C01.runRows_rows ext fields rows root0 root h0 hs0
+    (fun x hx => Build.noRaw_rawOK x (hraw x hx)) hrun
+  obtain ⟨hall, hcols, p, fs, cached, next, seen, rfl, hdec⟩ :=
+    Props.C01.runRows_interp ext fields rows root0 root hcov h0 hs0 hraw hrun
+  have hfacts := root_facts ext fields rows _ hmap hschema (Build.push_takeRest ext) hw
+    (Lemmas.C03.WFB_StrictDict _ hw) hrun
+  simp only [buildArrays, bind, Except.bind] at hba
+  cases hfin : finishFields ext fs with
+  | error e => rw [hfin] at hba; cases hba
+  | ok afs =>
+    rw [hfin] at hba
+    simp only [pure, Except.pure, Except.ok.injEq, Prod.mk.injEq] at hba
+    obtain ⟨rfl, _⟩ := hba
+    have hd := Lemmas.C03.finishFields_decode ext fs afs
+      (Lemmas.C03.WFL_WFBs fs _ (Lemmas.C03.WFB_struct hw).2) (Lemmas.C03.Faithful_struct hfacts.2.1) hfin
+    refine ⟨decCols fs, ?_, ?_, ?_, ?_⟩
+    · rw [List.map_map]
+      have := ArrFields_toList_decode afs
+      have e : (decodeAll ∘ fun (x : FieldMeta × Arr) => x.snd) = fun ma => decodeAll ma.snd := rfl
+      rw [e, this, hd, List.map_map]
+      rfl
+    · -- names: from `BuiltFor`
+      have hb := hfacts.1
+      simp only [Lemmas.C03.BuiltFor] at hb
+      obtain ⟨fields', hfe, _, hbl⟩ := hb
+      simp only [DataType.struct.injEq] at hfe
+      subst hfe
+      exact decCols_names fs _ hbl
+    · intro c hc
+      exact hcols c.2 (by simp only [decRoot, List.mem_map]; exact ⟨c, hc, rfl⟩)
+    · intro i hi
+      obtain ⟨hl, hg⟩ := All2_get hall
+      have h1 : i < (dec (B.struct p rows.length none fs cached next seen)).length := by rw [hl]; exact hi
+      have := hg i h1 hi
+      rw [this]
+      congr 1
+      simp only [hdec, List.getElem_map, List.getElem_range, Build.rowAt]
+where
+  decCols_names : ∀ (fs : BL) (fl : List Field), Lemmas.C03.BuiltForL (Fields.ofList fl) fs →
+      (decCols fs).map (·.1) = fl.map (·.name)
+    | .nil, [], _ => rfl
+    | .nil, _ :: _, h => by simp [Fields.ofList, Lemmas.C03.BuiltForL] at h
+    | .cons _ _ _, [], h => by simp [Fields.ofList, Lemmas.C03.BuiltForL] at h
+    | .cons b m r, f :: fr, h => by
+      simp only [Fields.ofList, Lemmas.C03.BuiltForL] at h
+      obtain ⟨rfl, _, hr⟩ := h
+      simp only [decCols, List.map_cons, decCols_names r fr hr]
+      cases f; rfl
 
 /-! ### a worked instance: the hypotheses are jointly satisfiable on a real run
 
 Two records for the schema `{a: Int32?, l: List<Int8>}` (second record without `a`).  The model run is evaluated by
-`decide` (`exRun`), `to_marrow` succeeds (`exOk`), and every hypothesis of `C03_wf_root_partial` other than the state
-invariant `WFB` (owned by agent-refine) is discharged for the resulting builder state. -/
+`decide` (`exRun`), `to_marrow` succeeds (`exOk`), and every hypothesis of `C03_wf` is discharged: an unconditional instance. -/
 
 def exFields : List Field := [.mk "a" .int32 true [], .mk "l" (.list (.mk "element" .int8 false [])) false []]
 def exRows : List SVal :=
@@ -566,21 +675,26 @@ theorem exOk : (toMarrow {} exFields exRows).isOk = true := by
   rw [toMarrow_eq, exRun]
   simp [exRoot, buildArrays, finishFields, finish, bind, Except.bind, pure, Except.pure, R.isOk]
 
-example (hw : WFB exRoot) : ∀ arrs, toMarrow {} exFields exRows = .ok arrs →
-    arrs.length = exFields.length ∧ ∃ n : Nat, ∀ (j : Nat) (f : Field) (a : Arr), exFields[j]? = some f →
-      arrs[j]? = some a → WF f a = true ∧ (decodeAll a).length = n := by
+/-- the instance, with every hypothesis of `C03_wf` discharged: both arrays are well formed and have 2 rows -/
+example : ∀ arrs, toMarrow {} exFields exRows = .ok arrs →
+    arrs.length = exFields.length ∧ ∀ (j : Nat) (f : Field) (a : Arr), exFields[j]? = some f →
+      arrs[j]? = some a → WF f a = true ∧ (decodeAll a).length = exRows.length := by
   intro arrs h
-  refine C03_wf_root_partial {} exFields exRows arrs ?_ ?_ ?_ ?_ h
-  all_goals (intro root hr; rw [exRun] at hr; cases hr)
-  · exact hw
-  · simp only [exRoot, exFields, Fields.ofList, Lemmas.C03.BuiltFor]
-    refine ⟨_, rfl, rfl, ?_⟩
-    simp only [Lemmas.C03.BuiltForL, Lemmas.C03.BuiltFor, metaOfField, Field.dataType, Field.nullable,
-      Lemmas.C03.leafDT, Lemmas.C03.intDT, Option.isSome, and_self, true_and]
-    refine ⟨⟨Field.mk "element" .int8 false [], by simp, rfl, rfl, rfl⟩, trivial⟩
-  · simp [exRoot, Lemmas.C03.Sound, Lemmas.C03.SoundL]
-  · exact Lemmas.C03.runRows_WFX {} (by constructor <;> (intros; rename_i h; cases h)) exFields exRows exRoot
-      (by simp [exRows, Lemmas.C03.SValOK, Lemmas.C03.SFieldsOK, Lemmas.C03.SValsOK, Lemmas.C03.ScalarOK, IntTy.inRange,
-        IntTy.min, IntTy.max]) exRun (by simp [exRoot, Lemmas.C03.ViewSmall, Lemmas.C03.ViewSmallL])
+  refine C03_wf {} exFields exRows arrs ?_ ?_ ?_ ?_ ?_ ?_ ?_ h
+  · simp [exFields, Lemmas.C03.Map2F, Lemmas.C03.Map2]
+  · simp [exFields, Lemmas.C03.SchemaOKF, Lemmas.C03.SchemaOK]
+  · intro root0 h0
+    rw [show newRoot exFields = .ok (.struct "$" 0 none
+      (.cons (.leaf "$.a" (.int .i32) (some []) []) ⟨"a", true, []⟩
+        (.cons (.list "$.l" false ⟨"element", false, []⟩ none [0] (.leaf "$.l.element" (.int .i8) none []))
+          ⟨"l", false, []⟩ .nil)) [none, none] 0 [false, false]) from by decide] at h0
+    cases h0
+    simp [Safe, SafeL]
+  · constructor <;> (intros; rename_i h; cases h)
+  · decide
+  · simp [exRows, Lemmas.C03.SValOK, Lemmas.C03.SFieldsOK, Lemmas.C03.SValsOK, Lemmas.C03.ScalarOK, IntTy.inRange,
+      IntTy.min, IntTy.max]
+  · intro root hr; rw [exRun] at hr; cases hr
+    simp [exRoot, Lemmas.C03.ViewSmall, Lemmas.C03.ViewSmallL]
 
 end SaModel.Props.C03
